@@ -54,8 +54,18 @@ func runRapid(t *testing.T, id string) {
 	}
 	rp := replayPathFor(id)
 	_ = os.Remove(rp)
+	cur := rp + ".current"
+	mark := id != "C19" && id != "C16" // C19 has no goroutines and recovers every panic in-process; C16 writes its own marker
 	rapid.Check(t, func(rt *rapid.T) {
 		c := p.Gen(rt)
+		if mark {
+			// the case that is running when a panic in a goroutine started by the library (commit / preload workers)
+			// kills the process becomes the replay file
+			if b, err := json.Marshal(map[string]any{"property": id, "failure": "the process died (unrecovered panic in a library goroutine) while this case was running", "case": c}); err == nil {
+				_ = os.MkdirAll(ReplayDir(), 0o755)
+				_ = os.WriteFile(cur, b, 0o644)
+			}
+		}
 		st, err := safeRun(p, c)
 		if err != nil {
 			_ = os.MkdirAll(ReplayDir(), 0o755)
